@@ -185,7 +185,9 @@ func (u *Universe) NewManifest(rng *rand.Rand, m *Model, repo string) MT {
 		}
 		mk(kind, MTIndex, ix)
 	case k < 14: // opaque media type, arbitrary bytes
-		out = MT{Data: []byte(fmt.Sprintf("opaque \x00 bytes %d", u.nonce)), MediaType: pick(rng, []string{"application/x-opaque", "text/plain", "application/vnd.docker.distribution.manifest.v2+json"}), Kind: "opaque"}
+		out = MT{Data: []byte(fmt.Sprintf("opaque \x00 bytes %d", u.nonce)), MediaType: pick(rng, []string{"application/x-opaque", "text/plain", "application/vnd.docker.distribution.manifest.v2+json",
+			// media types are opaque strings: case and parameters must survive every layer
+			"application/vnd.example.Thing.v1+json", "application/vnd.example.thing.v2+json; version=2"}), Kind: "opaque"}
 	case k < 15: // malformed JSON under an OCI media type
 		out = MT{Data: []byte(fmt.Sprintf("{not json %d", u.nonce)), MediaType: pick(rng, []string{MTImage, MTIndex}), Kind: "malformed"}
 	case k < 16: // JSON of the wrong shape
@@ -295,6 +297,20 @@ func (u *Universe) GenOp(rng *rand.Rand, m *Model, o GenOpts) *Op {
 			}
 			if rng.IntN(10) == 0 {
 				op.Digest = Digest([]byte("not the content"))
+			}
+			// ask the registry for the offset (-1) instead of resuming at Size() — unless exactly one byte
+			// has been received at some resume point (the status Range header cannot express that)
+			if len(op.ResumeAt) > 0 && rng.IntN(2) == 0 {
+				neg, recv := true, 0
+				for i, p := range op.Parts {
+					for _, ra := range op.ResumeAt {
+						if ra == i && recv == 1 {
+							neg = false
+						}
+					}
+					recv += len(p)
+				}
+				op.ResumeNeg = neg
 			}
 			return op
 		case k < 45:
